@@ -41,7 +41,7 @@ def build(case):
         elif k == "avgpool":
             m = torch.nn.AvgPool1d(l["size"])
         elif k == "maxpool":
-            m = torch.nn.MaxPool1d(l["size"], padding=l.get("pad", 0))
+            m = torch.nn.MaxPool1d(l["size"], padding=l.get("pad", 0), ceil_mode=bool(l.get("ceil", 0)))
         elif k == "act":
             slope = l["slope"][0] / l["slope"][1]
             if l["cls"] == "Custom":
@@ -110,6 +110,8 @@ def handler(case):
         X = base.encode(case["x"], A, torch.float64).unsqueeze(0)
         if case["refmode"] == "tensor":
             refs = torch.tensor([[[v[0] / v[1] for v in row] for row in rm] for rm in case["refs"]], dtype=torch.float64).unsqueeze(0)
+            if case["id"] % 3 == 2:
+                refs = refs.float()          # entries are k/8: the same references stored in single precision
             kw = dict(references=refs)
         else:
             kw = dict(references=dinucleotide_shuffle, n_shuffles=case["nref"], random_state=case["seed"])
@@ -141,7 +143,7 @@ def handler(case):
         with torch.no_grad():
             model.eval()
             out["fx"] = float(model(X)[0, case["target"]])
-            out["fr"] = [float(model(used[0, j:j + 1])[0, case["target"]]) for j in range(used.shape[1])]
+            out["fr"] = [float(model(used[0, j:j + 1].double())[0, case["target"]]) for j in range(used.shape[1])]
         hooks = sum(len(m._forward_hooks) + len(m._backward_hooks) + len(m._forward_pre_hooks) for m in model.modules())
         out["hooks"] = hooks
     finally:
